@@ -14,7 +14,7 @@ import tempfile
 VERIF = os.path.dirname(os.path.dirname(os.path.abspath(__file__)))
 
 MODES = {
-    'C01': ['bnd_doc', 'bnd_tables', 'c07_ol', 'c01_colspan', 'c01_specificity', 'c20_nth', 'c01_engine'],
+    'C01': ['bnd_doc', 'bnd_tables', 'c07_ol', 'c01_colspan', 'c01_specificity', 'c20_nth', 'c01_engine', 'c01_css'],
     'C02': ['bnd_tables', 'bnd_doc', 'bnd_c07'],
     'C03': ['bnd_tables', 'bnd_doc'],
     'C04': ['bnd_c04'],
@@ -23,7 +23,7 @@ MODES = {
     'C07': ['bnd_c07', 'c07_ol'],
     'C08': ['bnd_c08'],
     'C09': ['bnd_c09', 'c16_affix'],
-    'C11': ['bnd_doc'],
+    'C11': ['bnd_doc', 'bnd_tables'],
     'C12': ['bnd_c12'],
     'C13': ['bnd_c13'],
     'C14': ['bnd_c14', 'c14_hardwrap'],
@@ -39,6 +39,7 @@ LEGACY_BOUND = {
     'c01_colspan': 'tables with colspan in {0, 1, 2, 3, usize::MAX, 2^32} in 2 rows x 2 cells, widths 1, 5, 20: no panic',
     'c01_specificity': 'one selector with 65 536 class components (run on a deep stack): no panic in the specificity counters',
     'c20_nth': ':nth-child(an+b) with a, b in {0, +-1, +-2, +-2147483647, 2147483647, values beyond i32} on a 3-item list: no panic, and the items coloured equal the integer definition',
+    'c01_css': 'every concatenation of at most 3 (thorough: 4) of 23 CSS tokens (escapes, ASCII and multi-byte white space, braces, quotes, comment delimiters, !important, selectors, nth-child pieces), through add_css and through a <style> element with document CSS on: no panic',
     'c01_engine': 'text engine totality with a 2 s watchdog: 8 documents x widths 1..6 x max_wrap_width in {none, 0, 1, 3} x padding: returns',
     'c16_prefix': '3 decorators (ASCII, 2-byte width-1, 3-byte width-2 prefixes) x 5 documents x widths 6..=20: no panic, lines within the width',
     'c16_affix': 'decorator with visible affixes: 5 elements x 4 enclosing elements x unicode strikeout on/off x widths 80, 12: prefix + text + suffix appear verbatim',
@@ -55,7 +56,7 @@ STANDS_FOR = {
     'bnd_c15': 'option plumbing through size estimation (calc_size_estimate), sub-renderers and tables: each option changes only what it documents',
     'c07_ol': 'do_render_node Ol arm arithmetic with extreme start values', 'c01_colspan': 'tbody_to_render_tree / RenderTable::new with extreme colspans',
     'c01_specificity': 'Selector::specificity counters at their limit', 'c20_nth': 'nth-child parser and arithmetic at the i32 limits',
-    'c01_engine': 'termination of the text engine at tiny widths', 'c16_prefix': 'prefix measurement in do_render_node for custom decorators',
+    'c01_engine': 'termination of the text engine at tiny widths', 'c01_css': 'the CSS tokenizer and parser (src/css/parser.rs) on odd token sequences', 'c16_prefix': 'prefix measurement in do_render_node for custom decorators',
     'c16_affix': 'affix placement by start_X/end_X through do_render_node', 'c16_trivial': 'TrivialDecorator through the whole pipeline',
     'c19': 'computed_style + merge_computed_style + maybe_update as a whole', 'c19_block': 'styles_from_properties + cascade inside one block / style attribute', 'c19_order': 'rule storage (do_add_css) and source order in computed_style', 'c19_inherit': 'colour push/pop around children in do_render_node',
     'c14_hardwrap': 'fragment marker through flush_word_hard_wrap',
